@@ -159,6 +159,22 @@ def run(chk, w):
     from . import c01
     chk.rule("C10-CB", "the write callback is invoked only with the send-buffer mutex held (never by two threads at once)")
     c01.callback_rule(chk, w, c01.send_roles(w), db, "C10-CB")
+    # a tracked-state store that follows the submit of a message in the same function
+    from .. import atomic as _atomic, sendapi as _sendapi
+    chk.rule("C10-AFTER", "a store to tracked state that follows the submit of a message in the same function is made under a lock that was already held exclusively at the submit "
+                          "(otherwise the answer can be processed in between and the late store overwrites what it recorded)")
+    _S = _sendapi.SendAPI(w)
+    found_a, nfr = _atomic.submit_then_write(db, set(_S.constructors), lambda a: "track_state" in str(a.region[0]))
+    for (key, t, ls1, pt, ls2, wa) in found_a:
+        f = db.E.ctxs[key].fn
+        chk.violation("C10-AFTER", f.name, "%s:%s" % (wa.region[0], wa.field), pt.loc(),
+                      "%s submits a message through %s at line %d (lockset %s) and stores %s afterwards at line %d (lockset %s) with no lock held exclusively at both points: the "
+                      "receiver can apply the answer between the two and the late store replaces it" % (f.name, t.callee, t.line, locks.ls_str(ls1), wa.field, pt.line, locks.ls_str(ls2)),
+                      chain=db.E.chain(db.E.ctxs[key]))
+    if not found_a:
+        chk.ok("C10-AFTER", max(nfr, 1), {"frames_with_a_submit": nfr})
+    chk.floor("frames_with_a_submit", nfr, 40)
+
     # read-modify-write of tracked state split over two critical sections
     from .. import atomic
     chk.rule("C10-ATOM", "a value read from a shared field in one critical section and written back (modified) in a later one is covered by a lock held exclusively across both (no lost update)")
